@@ -430,6 +430,9 @@ void convolve_2d(SrcView const& src_view, Kernel const& kernel, DstView const& d
         typename color_space_type<DstView>::type
     >::value, "Source and destination views must have pixels with the same color space");
 
+    if (src_view.width() == 0 || src_view.height() == 0)
+        return; // nothing to do; nth_channel_view would take the address of src_view(0, 0)
+
     for (std::size_t i = 0; i < src_view.num_channels(); i++)
     {
         detail::convolve_2d_impl(
